@@ -21,16 +21,18 @@ VARIABLES l,      \* next line
           mp,     \* mempool bracket monitor
           prev,   \* projection logged with the previous line
           rolled, \* the application lost committed blocks in this run (Rollback events)
+          tampered, \* an operator put back older data / the application is ahead (Restore, Rollback to a higher height)
+          hsin,   \* projection logged with the last Info call = the cursors the Handshake was faced with
           viol, drift
-vars == <<l, s, l1, mon, blk, mp, prev, rolled, viol, drift>>
+vars == <<l, s, l1, mon, blk, mp, prev, rolled, tampered, hsin, viol, drift>>
 
-NoCfg  == [maxh |-> 0, txs |-> << >>, vu |-> << >>, pu |-> << >>, retain |-> << >>]
+NoCfg  == [maxh |-> 0, txs |-> << >>, vu |-> << >>, pu |-> << >>, retain |-> << >>, hashc |-> TRUE]
 MpInit == [locked |-> FALSE, flushed |-> FALSE]
 Post0  == [bs_h |-> 0, bs_base |-> 0, ss_saved |-> FALSE, ss_h |-> 0, ss_hash |-> Hash0, ss_last |-> 0,
            app_h |-> 0, app_hash |-> Hash0, wal_end |-> 0]
 
 Init == /\ l = 1 /\ s = InitState(NoCfg) /\ l1 = FALSE /\ mon = MonInit /\ blk = << >> /\ mp = MpInit
-        /\ prev = Post0 /\ rolled = FALSE /\ viol = {} /\ drift = {}
+        /\ prev = Post0 /\ rolled = FALSE /\ tampered = FALSE /\ hsin = Post0 /\ viol = {} /\ drift = {}
 
 \* ------------------------------------------------------------------ projection of the design state
 RECURSIVE MaxEnd(_, _)
@@ -106,7 +108,14 @@ JournalEvent(e) ==
     [] OTHER              -> JE("none", 0, 0)
 IsJournalOp(e) == e.ev = "Op" /\ e.op = "abci" /\ e.k \in {"InitChain", "BeginBlock", "DeliverTx", "EndBlock", "Commit"}
 
-CursorClass(p) == IF p.bs_h \notin {p.ss_h, p.ss_h + 1} THEN "store_vs_state"
+\* Which row of ReplayBlocks' outcome table (as repaired) the last Handshake was faced with; used to
+\* tell violations apart that only arise from cursors no crash of this node can produce.
+HsTag == IF hsin.bs_h = 0 THEN "empty_store"
+         ELSE HandshakeCase(hsin.bs_h, hsin.bs_base, hsin.ss_h, hsin.app_h)
+Tagged(class) == IF tampered THEN class \o "@" \o HsTag ELSE class
+
+CursorClass(p) == IF tampered THEN ""
+                  ELSE IF p.bs_h \notin {p.ss_h, p.ss_h + 1} THEN "store_vs_state"
                   ELSE IF p.app_h > p.bs_h THEN "app_ahead_of_store"
                   ELSE IF p.app_h < p.ss_h /\ ~rolled THEN "state_ahead_of_app"
                   ELSE IF p.app_h > p.ss_h + 1 THEN "app_two_ahead_of_state" ELSE ""
@@ -159,7 +168,7 @@ StepOp(e) ==
                   [] OTHER -> mp)
             ELSE mp
   /\ viol' = viol
-        \cup FailIf(jop /\ bad # "", V("JournalWellFormed", bad))
+        \cup FailIf(jop /\ bad # "", V("JournalWellFormed", Tagged(bad)))
         \cup FailIf(jop /\ e.k = "Commit" /\ real /\ ~mp.locked, V("MempoolBracket", "commit_without_mempool_lock"))
         \cup FailIf(jop /\ e.k = "Commit" /\ real /\ mp.locked /\ ~mp.flushed, V("MempoolBracket", "commit_without_flush"))
         \cup FailIf(e.op = "mp" /\ e.k = "Update" /\ ~mp.locked, V("MempoolBracket", "update_without_mempool_lock"))
@@ -185,9 +194,9 @@ StepHandshakeDone(e) ==
   /\ l1' = (l1 /\ ok /\ Proj(x) = p)
   /\ drift' = drift \cup FailIf(l1 /\ ~(ok /\ Proj(x) = p), D("Handshake completed; the spec is elsewhere or predicts other cursors", x))
   /\ viol' = viol
-        \cup FailIf(p.app_h # p.ss_h, V("HeightsAgree", "app_height_ne_state_height"))
-        \cup FailIf(p.bs_h # p.ss_h, V("HeightsAgree", "store_height_ne_state_height"))
-        \cup FailIf(p.app_h = p.ss_h /\ p.app_hash # p.ss_hash, V("HeightsAgree", "app_hash_ne_state_apphash"))
+        \cup FailIf(p.app_h # p.ss_h, V("HeightsAgree", Tagged("app_height_ne_state_height")))
+        \cup FailIf(p.bs_h # p.ss_h, V("HeightsAgree", Tagged("store_height_ne_state_height")))
+        \cup FailIf(p.app_h = p.ss_h /\ p.app_hash # p.ss_hash, V("HeightsAgree", Tagged("app_hash_ne_state_apphash")))
         \cup PostViol(p)
   /\ UNCHANGED <<mon, blk, mp>>
 
@@ -198,7 +207,8 @@ StepFailed(e) ==
   /\ s' = s
   /\ l1' = FALSE
   /\ drift' = drift \cup FailIf(l1 /\ ~ok, D(e.ev \o " (" \o e.msg \o ") is not predicted by the spec", x))
-  /\ viol' = viol \cup {V("Progress", e.ev \o ":" \o e.msg)} \cup PostViol(e.post)
+  \* a node that refuses to start on cursors an operator made inconsistent does the right thing
+  /\ viol' = viol \cup FailIf(~tampered, V("Progress", e.ev \o ":" \o e.msg)) \cup PostViol(e.post)
   /\ UNCHANGED <<mon, blk, mp>>
 
 StepCatchup(e) ==
@@ -217,12 +227,23 @@ StepDone(e) ==
         \cup PostViol(p)
   /\ UNCHANGED <<s, l1, mon, blk, mp, drift>>
 
-\* the application came back with fewer committed blocks than it had
+\* the application came back reporting another height than it had (fewer blocks: it lost commits;
+\* more: it is ahead of the node)
 StepRollback(e) ==
-  /\ s' = IF l1 /\ e.h <= s.app_h THEN RollbackOf(s, s.app_h - e.h) ELSE s
-  /\ l1' = (l1 /\ e.h <= s.app_h)
+  /\ s' = IF l1 THEN AppSetOf(s, e.h) ELSE s
   /\ mon' = MonNext(mon, JE("Rollback", e.h, 0))
-  /\ UNCHANGED <<blk, mp, viol, drift>>
+  /\ UNCHANGED <<l1, blk, mp, viol, drift>>
+
+\* an operator put back an older copy of the block store (bs), the state store (ss), the WAL and the
+\* key's last-sign state (wp), taken when height e.h was the last committed one
+StepRestore(e) ==
+  /\ s' = IF ~l1 THEN s
+          ELSE IF e.k = "bs" THEN RestoreBS(s, e.h)
+          ELSE IF e.k = "ss" THEN RestoreSS(s, e.h)
+          ELSE RestoreWP(s, e.h)
+  /\ l1' = (l1 /\ Proj(s') = e.post)
+  /\ drift' = drift \cup FailIf(l1 /\ Proj(s') # e.post, D("the restored copy is not what the spec expects at that height", s))
+  /\ UNCHANGED <<mon, blk, mp, viol>>
 
 StepOther(e) ==
   /\ viol' = viol \cup PostViol(e.post)
@@ -239,16 +260,20 @@ Step ==
             [] e.ev = "Catchup" -> StepCatchup(e)
             [] e.ev = "Done" -> StepDone(e)
             [] e.ev = "Rollback" -> StepRollback(e)
+            [] e.ev = "Restore" -> StepRestore(e)
             [] OTHER -> StepOther(e)
        /\ prev' = e.post
        /\ rolled' = IF e.ev = "Reset" THEN FALSE ELSE (rolled \/ e.ev = "Rollback")
+       /\ tampered' = IF e.ev = "Reset" THEN FALSE
+                      ELSE (tampered \/ e.ev = "Restore" \/ (e.ev = "Rollback" /\ e.h > prev.app_h))
+       /\ hsin' = IF e.ev = "Op" /\ e.op = "abci" /\ e.k = "Info" THEN e.post ELSE hsin
   /\ l' = l + 1
 
 Finish ==
   /\ l = Len(Trace) + 1
   /\ WriteVerdict("verdict.json", Len(Trace), viol, drift)
   /\ l' = l + 1
-  /\ UNCHANGED <<s, l1, mon, blk, mp, prev, rolled, viol, drift>>
+  /\ UNCHANGED <<s, l1, mon, blk, mp, prev, rolled, tampered, hsin, viol, drift>>
 
 Next == Step \/ Finish
 =============================================================================
